@@ -7,20 +7,8 @@ from . import battery, readers, filelib
 
 SPATH = storage.PREFIX + 'g.sgz'          # the sibling: another file of the same geometry (C15)
 
-# xarray and whatever it imports lazily must be loaded while nothing is patched (a module imported
-# under the simulator's patches would bind the simulated names for good)
-try:
-    import xarray as _xr
-    from seismic_zfp.sgz_xarray import SeismicZfpBackendEntrypoint as _EP
-    _fx = sorted(glob.glob(os.path.join(env.REPO, 'test_data', 'small_4bit.sgz')))
-    if _fx:
-        _ds = _xr.open_dataset(_fx[0], engine=_EP)
-        _ = _ds['data'].isel(il=slice(0, 1), xl=slice(0, 2), z=slice(0, 3)).values
-        _ds.close()
-        readers.clear_caches()
-    HAVE_XARRAY = True
-except Exception:                                          # pragma: no cover
-    HAVE_XARRAY = False
+HAVE_XARRAY = readers.HAVE_XARRAY
+readers.clear_caches()
 
 READER_OPENERS = ['path', 'path', 'preload', 'ccs1', 'ccs2', 'preload_ccs1', 'handle', 'blob', 'blob_preload']
 EMU_OPENERS = ['emulator', 'emulator', 'emulator_ccs1', 'emulator_blob', 'emulator_handle']
@@ -206,7 +194,7 @@ def truth_for(data, ops, sibling=None):
     return table
 
 
-def execute(data, ops, chooser, observer=None, step_cap=10 ** 7, sibling=None):
+def execute(data, ops, chooser, observer=None, step_cap=10 ** 7, sibling=None, preempt=None):
     """Runs the history.  Returns (outcomes aligned with ops (None for open/close that succeeded),
     fs, run result).  observer(i, op, opener, obj, requests, outcome) is called after every op with
     the range requests that op issued."""
@@ -264,7 +252,7 @@ def execute(data, ops, chooser, observer=None, step_cap=10 ** 7, sibling=None):
             t.join()
         for slot in sorted(objs):
             close_any(*objs[slot])
-    r = env.run_sim(fn, fs, chooser, step_cap=step_cap)
+    r = env.run_sim(fn, fs, chooser, step_cap=step_cap, preempt=tuple(preempt) if preempt else None)
     readers.clear_caches()
     return outcomes, fs, r
 
